@@ -810,7 +810,7 @@ def statements(rng, tier):
                             tgt = sl[0] if left else sl[2]          # an innermost leaf of the chain
                             add("assign", tgt=(T, tgt), e=fill(shape, sl, iter(range(n))), tags=("d3", "slice", "alias:inner-leaf"))
     # ---- depth 3 and 4: sampled (thorough: many more)
-    for d, n in ((3, 12000 if thorough else 500), (4, 6000 if thorough else 250)):
+    for d, n in ((3, 20000 if thorough else 500), (4, 10000 if thorough else 250)):
         k = 0
         while k < n:
             T = rng.choice(["z", "z", "q"])
@@ -881,7 +881,7 @@ def statements(rng, tier):
         v = list(alias_variants(shape, "f"))
         for tree, tgt, tag in (v if thorough else rng.sample(v, min(2, len(v)))):
             add("assign", tgt=("f", tgt), e=tree, tags=("mpf", "d1", "alias:" + tag))
-    k = 0; nf = 4000 if thorough else 150
+    k = 0; nf = 6000 if thorough else 150
     while k < nf:
         d = rng.choice([2, 2, 3]); shape = rand_shape(rng, "f", d, MAIN_BI)
         if not welltyped(shape) or len(builtins(shape)) > NB or not holes(shape): continue
